@@ -113,7 +113,10 @@ Definition val2bytes (v : pyval) (t : aty) : result bytes :=
       else Ok (enc_le 8 (Z.to_N (bits_of_b64 f)))
     else if (l =? lA)%N then
       do n <- attsiz_nat t;
-      match v with PList xs => arr_enc n xs | _ => Raise EType end
+      match v with
+      | PList xs => if negb (Nat.eqb (length xs) n) then Raise EValue else arr_enc n xs
+      | _ => Raise EType
+      end
     else Raise EUnbound                               (* `valb` never assigned *)
   end.
 
